@@ -862,6 +862,10 @@ class Normalizer:
             base = t.replace("const", "").replace("static", "").strip()
             init2 = None if init is None else self.drop_casts(self.expr(init), env, target=base)
             dims2 = tuple(None if d is None else self.expr(d) for d in dims)
+            if "static" in t.split() and "const" not in t.split():
+                # a static local is initialised ONCE, not on every call: the declaration is kept whole (with its
+                # initialiser and storage class) and never becomes an assignment
+                return [("decl", "static " + base, name, dims2, init2)]
             out = [("decl", base, name, dims2, None)] if (dims or init2 is None) else [("decl", base, name, dims2, None), ("expr", ("asg", "=", ("id", name), init2))]
             if init2 is not None and init2[0] == "cond":
                 out = [out[0]] + self.assign_stmt(("asg", "=", ("id", name), init2), env)
@@ -1331,6 +1335,22 @@ class Source:
         if env is None:
             raise ExtractFail(self.where, f"{name}: {what} not recognised; normal form of the function:\n" + self.text(name)[:3000])
         return env
+
+    def locals_of(self, name):
+        """{local name: (storage class, type, initialiser of a static | None)} of the function's normal form"""
+        out = {}
+
+        def rec(stmts):
+            for st in stmts:
+                if st[0] == "decl":
+                    static = st[1].split()[:1] == ["static"]
+                    out[st[2]] = ("static" if static else "automatic", st[1][7:] if static else st[1], st[4] if static else None)
+                else:
+                    for part in st[1:]:
+                        if isinstance(part, tuple) and part and isinstance(part[0], tuple):
+                            rec(part)
+        rec(self.body(name))
+        return out
 
     def uses(self, name, ident):
         return ident in ids_of(tuple(self.body(name)))
